@@ -37,17 +37,20 @@ pub struct Cfg {
     pub numeric_frames: bool,
     /// all optional value types (text-level only)
     pub wide_values: bool,
+    /// identifiers / inline constants that end in a backslash (quarantined for C11's inject_parameters
+    /// workload: listed finding KF-C11-trailing-backslash)
+    pub trailing_backslash: bool,
 }
 
 impl Cfg {
     pub fn sqlite_exec() -> Cfg {
-        Cfg { dialect: Some(Dialect::Sqlite), exec: true, tags: false, max_depth: 3, named_window: true, numeric_frames: true, wide_values: false }
+        Cfg { dialect: Some(Dialect::Sqlite), exec: true, tags: false, max_depth: 3, named_window: true, numeric_frames: true, wide_values: false, trailing_backslash: true }
     }
     pub fn portable_exec() -> Cfg {
-        Cfg { dialect: None, exec: true, tags: false, max_depth: 3, named_window: true, numeric_frames: true, wide_values: false }
+        Cfg { dialect: None, exec: true, tags: false, max_depth: 3, named_window: true, numeric_frames: true, wide_values: false, trailing_backslash: true }
     }
     pub fn text(d: Dialect) -> Cfg {
-        Cfg { dialect: Some(d), exec: false, tags: true, max_depth: 4, named_window: true, numeric_frames: true, wide_values: true }
+        Cfg { dialect: Some(d), exec: false, tags: true, max_depth: 4, named_window: true, numeric_frames: true, wide_values: true, trailing_backslash: true }
     }
     fn is(&self, d: Dialect) -> bool {
         self.dialect == Some(d)
@@ -101,6 +104,13 @@ impl<'a> Gen<'a> {
 
     fn fresh(&mut self, p: &str) -> String {
         self.alias += 1;
+        if p == "o" && !self.cfg.exec && self.cfg.dialect.is_some() && self.rng.chance(1, 12) {
+            // output names are identifiers like any other: quote characters, a trailing backslash,
+            // placeholder look-alikes
+            let extra = *self.rng.pick(&["\\", "\"", "`", "?", "$1", " x", "é", "'"]);
+            let extra = if extra == "\\" && !self.cfg.trailing_backslash { "\\x" } else { extra };
+            return format!("{p}{}{extra}", self.alias);
+        }
         format!("{p}{}", self.alias)
     }
 
@@ -352,7 +362,7 @@ impl<'a> Gen<'a> {
             8 => {
                 let e = self.scalar(scope, K::T, depth - 1);
                 let pat = if self.cfg.tags { self.text_val() } else { X::Text(self.rng.pick(&["a%", "%c", "_", "a!%c", "%"]).to_string()) };
-                let esc = if self.rng.chance(1, 3) { Some('!') } else { None };
+                let esc = if self.rng.chance(1, 3) { Some(*self.rng.pick(&['!', '!', if self.cfg.trailing_backslash { '\\' } else { '!' }, '#'])) } else { None };
                 if !self.cfg.exec && self.cfg.is(Dialect::Postgres) && self.rng.chance(1, 3) {
                     X::ILike(b(e), self.rng.chance(1, 4), b(pat), esc)
                 } else {
@@ -565,6 +575,11 @@ impl<'a> Gen<'a> {
                 s.items.push(Item { expr: e, alias: Some(a.clone()), window: None });
                 s.out.push(a);
             }
+            // candidate ORDER BY keys that are expressions over the scope rather than output names
+            for _ in 0..self.rng.below(3) {
+                let e = self.order_key_expr(&scope);
+                s.order_exprs.push(e);
+            }
             if self.rng.chance(1, 6) {
                 s.distinct = Some(Distinct::Distinct);
             } else if self.rng.chance(1, 6) && self.cfg.dialect.is_some() {
@@ -612,7 +627,8 @@ impl<'a> Gen<'a> {
         // total order inside the partition: a column then every key of the scope
         if self.rng.chance(3, 4) {
             let c = self.col_of(scope, None).unwrap();
-            w.order.push(Ord_ { expr: c, dir: if self.rng.coin() { Dir::Asc } else { Dir::Desc }, nulls_first: None });
+            let wn = if self.rng.chance(1, 4) { Some(self.rng.coin()) } else { None };
+            w.order.push(Ord_ { expr: c, dir: if self.rng.coin() { Dir::Asc } else { Dir::Desc }, nulls_first: wn });
             let mut keyed = true;
             for r in scope {
                 if r.key.is_empty() {
@@ -641,10 +657,57 @@ impl<'a> Gen<'a> {
         w
     }
 
+    /// An expression over the scope for an ORDER BY key: function calls over nullable columns, arithmetic
+    /// with a value, or a general scalar.
+    fn order_key_expr(&mut self, scope: &[Rel]) -> X {
+        let k = *self.rng.pick(&[K::I, K::I, K::T]);
+        match self.rng.below(5) {
+            0 => {
+                let a = self.col_any(scope, k);
+                let c = self.col_any(scope, k);
+                X::Func("COALESCE", vec![a, c])
+            }
+            1 => {
+                let a = self.col_any(scope, k);
+                let v = self.val_of(k);
+                X::Func(if self.rng.coin() { "IFNULL" } else { "COALESCE" }, vec![a, v])
+            }
+            2 => {
+                let a = self.col_any(scope, K::I);
+                let v = self.int_val();
+                X::Bin(b(a), *self.rng.pick(&[BinOper::Add, BinOper::Sub, BinOper::Mul]), b(v))
+            }
+            3 => self.col_of(scope, None).unwrap(),
+            _ => {
+                // a bare literal is not a key: an inlined integer in ORDER BY is a column position, a bound
+                // one a constant (SQL's rule, not the builder's)
+                let e = self.scalar(scope, k, 1);
+                if e.children().is_empty() && !matches!(e, X::Col(_) | X::QCol(..)) {
+                    self.col_any(scope, k)
+                } else {
+                    e
+                }
+            }
+        }
+    }
+
+    fn col_any(&mut self, scope: &[Rel], k: K) -> X {
+        match self.col_of(scope, Some(k)) {
+            Some(c) => c,
+            None => self.col_of(scope, None).unwrap(),
+        }
+    }
+
     fn order_item(&mut self, s: &Sel, allow_nulls: bool, allow_field: bool) -> Ord_ {
+        if allow_field && s.distinct.is_none() && !s.order_exprs.is_empty() && self.rng.chance(1, 3) {
+            let e = self.rng.pick(&s.order_exprs).clone();
+            let dir = if self.rng.coin() { Dir::Asc } else { Dir::Desc };
+            let nulls_first = if allow_nulls && self.rng.coin() { Some(self.rng.coin()) } else { None };
+            return Ord_ { expr: e, dir, nulls_first };
+        }
         let c = self.rng.pick(&s.out).clone();
         let dir = if allow_field && self.rng.chance(1, 8) {
-            let vals = vec![Value::from(1i32), Value::from(2i32), Value::from("x")];
+            let vals = vec![Value::from(1i32), Value::from(2i32), Value::from(*self.rng.pick(&["x", "x", if self.cfg.trailing_backslash { "dir\\" } else { "dir\\x" }, "it's"]))];
             Dir::Field(vals[..1 + self.rng.below(3)].to_vec())
         } else if self.rng.coin() {
             Dir::Asc
